@@ -261,11 +261,15 @@ func NewUniverse() *Universe {
 	// map[interface{}]interface{} (yaml.v2): entries are indexed by an abstract id; ykey(m, id) is the key
 	u.dts["MapYaml"] = &DT{Name: "MapYaml", Kind: "map", Elem: SAny, Key: SInt}
 	u.dts["SliceString"] = &DT{Name: "SliceString", Kind: "slice", Elem: SString}
+	// function values stored in containers (a map of funcs): an uninterpreted sort declared in the prelude
+	u.dts["Func"] = &DT{Name: "Func", Kind: "opaque"}
 	return u
 }
 
 const prelude = `
 (declare-sort Hash8 0)
+(declare-sort Func 0)
+(declare-const zero_Func Func)
 (declare-datatypes ((SliceString 0)) (((mk_SliceString (arr_SliceString (Array Int String)) (len_SliceString Int)))))
 (declare-datatypes ((Node 0) (SliceNode 0) (MapNode 0)) (
   ((n_nil) (n_void) (n_null) (n_bool (bv Bool)) (n_num (nv Real)) (n_str (sv String))
